@@ -236,6 +236,26 @@ def random_behaviours(rng, count, garbage=False):
     return out
 
 
+def stalled_receiver_behaviours(rng, count):
+    """an established bridge whose receiving side stops reading for a while: the relay may buffer, slow the sender down or close the
+    bridge, but as long as both stay connected everything sent must arrive, in order, once the receiver reads again"""
+    out = []
+    for k in range(count):
+        big = rng.choice([300000, 600000, 1500000, 3000000]) if k else 1500000
+        back = rng.choice([0, 70000, 900000])
+        lines = ["reset n=3", "open c=1", "open c=2", "open c=3", "send c=1 p=reg:1", "send c=3 p=reg:2",
+                 "send c=2 p=con:102:1,id:0:32,tok:1", "send c=1 p=tok:1"]
+        lines += ["stall c=1", "send c=2 p=tok:2,raw:bin:%d:%d,tok:3%s" % (big, rng.randrange(1 << 16), " split=%d" % rng.choice([65536, 300000]) if rng.random() < 0.5 else "")]
+        if rng.random() < 0.5:
+            lines.append("send c=2 p=raw:bin:%d:%d,tok:4" % (rng.choice([4096, 100000]), rng.randrange(1 << 16)))
+        lines += ["unstall c=1", "send c=2 p=tok:9"]
+        if back:
+            lines += ["stall c=2", "send c=1 p=tok:2,raw:bin:%d:%d,tok:3" % (back, rng.randrange(1 << 16)), "unstall c=2", "send c=1 p=tok:4"]
+        lines += ["send c=3 p=ping"] + (["close c=%d" % rng.choice([1, 2])] if rng.random() < 0.5 else []) + ["final"]
+        out.append(lines)
+    return out
+
+
 # ---- run on the real server + validate -------------------------------------------------------------------
 SAN_RE = re.compile(r"ERROR: (?:AddressSanitizer|LeakSanitizer): ([A-Za-z0-9_-]+)|(runtime error):|ERROR: (LeakSanitizer): detected")
 
@@ -379,6 +399,7 @@ def run(chk):
         run_and_validate(chk, [hist_to_script(h, rng).done() for h in h2], "tlc-state-cover-as-found-variant")
         run_and_validate(chk, transition_cover(hists + hists2, rng, 800 if not thorough else 12000), "tlc-transition-cover")
         run_and_validate(chk, random_behaviours(rng, 400 if not thorough else 8000), "random")
+        run_and_validate(chk, stalled_receiver_behaviours(rng, 6 if not thorough else 40), "slow-receiver")
     else:
         # C26: same generated executions, plus byte streams outside the protocol; the memory-safety clause is monitored
         # by running them under AddressSanitizer + UBSan as well
